@@ -13,7 +13,7 @@ RULE = ("Hypothesis generates a scenario: 1-3 entries of any kind, the trash dir
         "options. A fault-free run under the os-level interposer records the N mutating operations "
         "(mkdir, open O_EXCL, write, close, rename, fopen, sendfile, chmod, utime, unlink, rmdir ...); "
         "then the world is rebuilt and trash-put is killed (os._exit, like SIGKILL) immediately "
-        "before mutating operation k, for EVERY k in 1..N; and it is interrupted like Ctrl-C "
+        "before mutating operation k, for EVERY k in 1..N, and immediately AFTER every unlink / rmdir / rename (user-space buffers are lost there); and it is interrupted like Ctrl-C "
         "(KeyboardInterrupt raised right before and right after operation k, so that finally / "
         "except clauses run) for every k as well. Oracle on each post-crash disk: every "
         "entry is complete (deep-equal to its pre-snapshot) at its original place or complete "
@@ -181,6 +181,25 @@ def run_case(case):
         out.keys.append([scen, op, min(k * 4 // max(n, 1), 3)])
         if out.fails:
             break
+    # Killed right AFTER a destructive operation (unlink / rmdir / rename / remove): between two
+    # intercepted operations the process may still hold data in user-space buffers (buffered
+    # writers flush in C, below the interposer), which a SIGKILL there loses.
+    if not out.fails:
+        for k in range(1, n + 1):
+            op = muts[k - 1][2] if k - 1 < len(muts) else "?"
+            if op not in ("unlink", "remove", "rmdir", "rename", "replace"):
+                continue
+            sandbox.build_world(spec)
+            r = runner.run(spec, "trash-put", opts + ["--"] + files, plan={"crash_after": k})
+            if r.code != 137:
+                continue
+            after = sandbox.snapshot()
+            judge(out, before, after, files, dict(tags, op=op, kill="after"),
+                  "killed right after op %d/%d (%s %s)" % (k, n, op, muts[k - 1][3][:1]))
+            out.classes.append("crash_after:" + op)
+            out.keys.append([scen, "after", op, min(k * 4 // max(n, 1), 3)])
+            if out.fails:
+                break
     # Ctrl-C: Python turns SIGINT into KeyboardInterrupt at the next bytecode boundary, so - unlike
     # SIGKILL - `finally` / `except BaseException` clauses of trash-put still run. Raised right
     # before and right after every mutating operation.
